@@ -267,6 +267,9 @@ func (k *kernel) readdir(dir string, bufs []int, resume []resumeT, out *outcome)
 			out.resumedMulti = true
 		}
 	}
+	if calls >= 2 && len(bufs) == 1 && bufs[0] == 4096 {
+		out.pageMulti = true
+	}
 	return nil
 }
 
@@ -386,8 +389,9 @@ func (k *kernel) exec(op opT, L int, out *outcome) error {
 
 // sweep lists every directory with a page-sized buffer and reads every file in full (in chunks
 // of 128 KiB like the kernel's read-ahead), so that every case checks the complete tree
-func (k *kernel) sweep(L int) error {
+func (k *kernel) sweep(L int, out *outcome) error {
 	scratch := &outcome{kinds: map[string]bool{}}
+	defer func() { out.pageMulti = out.pageMulti || scratch.pageMulti }()
 	for _, d := range k.m.dirs() {
 		if err := k.readdir(d, []int{4096}, nil, scratch); err != nil {
 			return err
